@@ -181,7 +181,7 @@ func (r *runtime) source(it any) *replaySource {
 	if v.Kind() == reflect.Struct && v.NumField() >= 1 && v.Type().Field(0).Type.Kind() == reflect.Func {
 		pv := reflect.New(v.Type())
 		pv.Elem().Set(v)
-		key := *(*unsafe.Pointer)(unsafe.Pointer(pv.Pointer() + v.Type().Field(0).Offset))
+		key := *(*unsafe.Pointer)(unsafe.Add(pv.UnsafePointer(), v.Type().Field(0).Offset))
 		if s, ok := replaySources[key]; ok {
 			return s
 		}
